@@ -72,10 +72,10 @@ Proof.
   destruct (validate_zipfile L (zo_infos o)); try discriminate. auto.
 Qed.
 
-Lemma odf_probe_dominated : forall L c z o, trace_ok (odf_probe_events L c z o) = true.
+Lemma odf_probe_dominated : forall L c z o m, trace_ok (odf_probe_events L c z o m) = true.
 Proof.
   intros. unfold odf_probe_events. destruct z; [|reflexivity]. destruct (zo_opens o); [|reflexivity].
-  destruct (validate_zipfile L (zo_infos o)); cbn; rewrite ?N.eqb_refl; reflexivity.
+  destruct (validate_zipfile L (zo_infos o)); try destruct m; cbn; rewrite ?N.eqb_refl; reflexivity.
 Qed.
 
 (* accepted => every claimed size is within the limits *)
